@@ -13,7 +13,7 @@ import (
 )
 
 func init() {
-	register(&Rule{ID: "CMD-1", Props: []string{"C04", "C07", "C13", "C19", "C05"}, Floor: 5,
+	register(&Rule{ID: "CMD-1", Props: []string{"C04", "C07", "C13", "C19", "C05"}, Floor: 3,
 		Doc: "rejection funnel: every error return of the dispatch function is preceded by the error and the usage on stdErr and then by the policy switch with that error on the rejecting command; no hook ran; callers propagate the result unchanged", Run: cmd1})
 	register(&Rule{ID: "CMD-2", Props: []string{"C05", "C07", "C14"}, Floor: 9,
 		Doc: "policy switch, evaluated for 3 error classes x 3 policies: sentinels exit 0 / return; errors exit 2 / panic(err) / return; exiter and os.Exit appear nowhere else", Run: cmd2})
@@ -1264,11 +1264,11 @@ func lenNonZeroAt(fn *ssa.Function, v ssa.Value, b *ssa.BasicBlock) bool {
 	found := false
 	ir.Instrs(fn, func(in ssa.Instruction) {
 		bo, ok := in.(*ssa.BinOp)
-		if !ok {
+		if !ok || found {
 			return
 		}
-		z, isC := ir.ConstInt(bo.Y)
-		if !isC || z != 0 {
+		k, isC := ir.ConstInt(bo.Y)
+		if !isC {
 			return
 		}
 		lc, isCall := bo.X.(*ssa.Call)
@@ -1278,13 +1278,9 @@ func lenNonZeroAt(fn *ssa.Function, v ssa.Value, b *ssa.BasicBlock) bool {
 		if bi, isB := lc.Call.Value.(*ssa.Builtin); !isB || bi.Name() != "len" || lc.Call.Args[0] != v {
 			return
 		}
-		switch bo.Op {
-		case token.EQL:
-			if ir.HoldsAt(bo, false, b) {
-				found = true
-			}
-		case token.NEQ, token.GTR:
-			if ir.HoldsAt(bo, true, b) {
+		for _, want := range []bool{true, false} {
+			// the outcome `want` is impossible for length 0
+			if z, okZ := lenCmp(bo.Op, 0, k); okZ && z != want && ir.HoldsAt(bo, want, b) {
 				found = true
 			}
 		}
